@@ -120,7 +120,8 @@ class Purity:
             return frozenset()
         out = set()
         try:
-            bound = self.prog.bound_args(g, call)
+            bound, _callee = self.prog.bound_args(self.f, call)
+            bound = bound or {}
         except Exception:
             bound = {}
         for r in s:
